@@ -152,6 +152,9 @@ func (vc *VC) setupAndRun() *Exec {
 			vc.axiomsUsed = append(vc.axiomsUsed, ax.Name)
 		}
 		for _, r := range spec.Requires {
+			if modeSkip(r, vc.conc) {
+				continue
+			}
 			vc.assume(ev.evalBool(r.Expr))
 		}
 		for _, f := range spec.Findings {
@@ -217,6 +220,13 @@ func (vc *VC) finish(ex *Exec) {
 			}
 			st.m[k] = vc.define("x_"+k, srt, term)
 		}
+		var olds []*State
+		var conds []string
+		for _, r := range ex.rets {
+			olds = append(olds, r.st.old)
+			conds = append(conds, r.reach)
+		}
+		st.old = ex.mergeOlds(olds, conds)
 	}
 	ex.curState = st
 	ex.curReach = exitReach
@@ -259,6 +269,9 @@ func (vc *VC) finish(ex *Exec) {
 	}
 	// frame: every heap component written anywhere in the function
 	for _, key := range sortedKeys(ex.allWrites) {
+		if vc.conc {
+			break // frames are a sequential (C16) matter; in concurrent mode old() is the state at the last acquisition
+		}
 		if f := ex.frameFormula(key, st); f != "" {
 			vc.oblige(fmt.Sprintf("frame[%s]", shortKey(key)), "frame", vc.fn.Pos(), exitReach, f, "nothing outside the modifies clause changed in "+key)
 		}
@@ -268,8 +281,18 @@ func (vc *VC) finish(ex *Exec) {
 		vc.oblige(fmt.Sprintf("assert[%d]", k+1), a.Tag, vc.fn.Pos(), exitReach, t, "hint: "+a.Text)
 	}
 	for k, e := range spec.Ensures {
+		if modeSkip(e, vc.conc) || (vc.conc && spec.Opts["multi-section"] != "" && (e.Tag == "" || e.Tag == "seq")) {
+			continue
+		}
 		t := mkEval().evalBool(e.Expr)
-		vc.oblige(fmt.Sprintf("ensures[%d]", k+1), e.Tag, vc.fn.Pos(), exitReach, t, "postcondition: "+e.Text)
+		tag := e.Tag
+		if tag == "conc" || tag == "seq" {
+			tag = ""
+		}
+		if vc.conc && tag == "" {
+			tag = "lp" // atomic specification between the last acquisition and the exit: linearizability (C02)
+		}
+		vc.oblige(fmt.Sprintf("ensures[%d]", k+1), tag, vc.fn.Pos(), exitReach, t, "postcondition: "+e.Text)
 	}
 	ex.lockExit(spec, st, exitReach)
 }
